@@ -372,3 +372,164 @@ pub fn execute_hsrv(plan: &Plan) -> Outcome {
         extra_cases: (0..total).map(|i| plan.seed.wrapping_mul(1_000_303).wrapping_add(i)).collect(),
     }
 }
+
+// ---------------------------------------------------------------- C11: the client's side of the packet-id rule
+
+/// C11, "all sessions on client and server side": a reference *server* answers the real client's datagram session with
+/// a scripted arrival order of (server session, packet id) pairs - two server sessions interleaved (a server that
+/// restarted or whose association expired while stragglers of the old session are still in flight), duplicates, ids
+/// behind the window, jumps. What reaches the application is compared, step by step, with the property's own
+/// predicate kept per server session.
+pub fn gen_c11_srv(seed: u64, thorough: bool) -> Plan {
+    let mut g = Gen::new(seed, 111);
+    let ss22: Vec<&str> = SS_CIPHERS.iter().copied().filter(|c| is_2022(c)).collect();
+    let cipher = ss22[seed as usize % ss22.len()];
+    let n_users = if supports_eih(cipher) && (seed / 4) % 2 == 1 { 2 } else { 0 };
+    let mut config = gen_config(&mut g, Proto::Shadowsocks, cipher, Transport::Tcp, n_users);
+    config.client_mode = "tcp_and_udp".into();
+    // arrival order: (session 0/1, packet id)
+    let n = if thorough { g.range(20, 120) } else { g.range(8, 40) } as usize;
+    let mut next = [1u64, 1u64];
+    let mut sent: [Vec<u64>; 2] = [Vec::new(), Vec::new()];
+    let mut steps: Vec<(u8, u64)> = Vec::new();
+    let mut cur = 0usize;
+    for i in 0..n {
+        // the second session appears after a while; then both interleave, the old one thinning out
+        if i > 2 && g.chance(if next[1] == 1 { 20 } else { 35 }) {
+            cur = 1 - cur;
+        }
+        let s = cur;
+        let id = match g.below(10) {
+            0 | 1 if !sent[s].is_empty() => *g.pick(&sent[s]),                   // duplicate
+            2 if next[s] > 3 => next[s] - g.range(2, (next[s] - 1).min(40)),     // late, maybe new, maybe seen
+            3 => {
+                next[s] += g.range(2, 70);                                         // gap
+                next[s]
+            }
+            4 if g.chance(20) => {
+                next[s] += 8128 + g.range(0, 200);                                 // jump beyond the window
+                next[s]
+            }
+            5 if next[s] > 8200 => next[s] - 8128 - g.range(0, 3),               // around the window edge
+            _ => {
+                next[s] += 1;
+                next[s] - 1
+            }
+        };
+        sent[s].push(id);
+        steps.push((s as u8, id));
+    }
+    Plan {
+        property: "C11".into(),
+        scenario: "client-window".into(),
+        seed,
+        net_seed: g.next(),
+        config,
+        knobs: KnobsPlan::simple(),
+        flows: vec![],
+        extra: serde_json::json!({ "steps": steps, "sub_seed": g.next() }),
+    }
+}
+
+pub fn execute_c11_srv(plan: &Plan) -> Outcome {
+    let c = creds(&plan.config);
+    let cell = format!("{}{}", plan.config.family(), if c.user_keys.is_empty() { "" } else { "+users" });
+    let steps: Vec<(u8, u64)> = serde_json::from_value(plan.extra["steps"].clone()).unwrap_or_default();
+    let mut g = Gen::new(plan.extra["sub_seed"].as_u64().unwrap_or(1), 112);
+    let out = rt::run_sim(plan.seed, plan.net_seed, plan.knobs.to_knobs(), || async {
+        let mut notes: Vec<(String, String)> = Vec::new();
+        let Ok(usock) = UdpSocket::bind(server_addr()).await else { return (Some("harness server bind".to_owned()), notes, 0u64) };
+        let _tcp = TcpListener::bind(server_addr()).await;
+        let client = start_client_json(rt::NODE_CLIENT, plan.config.client_json("127.0.0.1", SERVER_PORT));
+        tokio::task::yield_now().await;
+        if !settle(|| crate::nodes::udp_bound(CLIENT_PORT)).await {
+            return (Some(format!("client did not come up (finished={})", client.is_finished())), notes, 0);
+        }
+        let app = UdpSocket::bind(SocketAddr::new(IpAddr::V4(Ipv4Addr::LOCALHOST), 0)).await.unwrap();
+        let target = crate::scen_udp::UdpTarget { ip: T_IP, port: T_PORT, name: None, replies: 1, reply_size: 0 };
+        let cipher = plan.config.cipher.clone();
+        let mut buf = vec![0u8; 65536];
+        let _ = app.send_to(&crate::scen_udp::socks5_udp_wrap(&target, b"open-the-session"), SocketAddr::new(IpAddr::V4(Ipv4Addr::LOCALHOST), CLIENT_PORT)).await;
+        let Ok(Ok((n, from))) = tokio::time::timeout(Duration::from_secs(2), usock.recv_from(&mut buf)).await else {
+            return (Some("the client forwarded no datagram".to_owned()), notes, 0);
+        };
+        let pkt = buf[..n].to_vec();
+        let ids: Option<(u64, Option<usize>)> = if refimpl::ss2022::is_aes(&cipher) {
+            let eih = if c.user_keys.is_empty() { 0 } else { 1 };
+            let body_keys = if c.user_keys.is_empty() { vec![c.psk.clone()] } else { c.user_keys.clone() };
+            refimpl::ss2022::udp_open_aes(&cipher, &c.psk, &body_keys, eih, &pkt, false).ok().map(|(b, idx, _, _)| (b.session_id, if eih == 1 { Some(idx) } else { None }))
+        } else {
+            refimpl::ss2022::udp_open_chacha(&cipher, &c.psk, &pkt, false).ok().map(|(b, _)| (b.session_id, None))
+        };
+        let Some((csid, user)) = ids else { return (Some("the reference cannot open the client's datagram".to_owned()), notes, 0) };
+        let sessions = [g.next() | 1, g.next() | 2];
+        // the property's predicate, per server session
+        let mut model: [(u64, std::collections::BTreeSet<u64>); 2] = [(0, Default::default()), (0, Default::default())];
+        let mut compared = 0u64;
+        for (k, (s, id)) in steps.iter().enumerate() {
+            let s = (*s as usize).min(1);
+            let payload = format!("step-{k}-session-{s}-id-{id}").into_bytes();
+            let body = refimpl::ss2022::UdpBody { session_id: sessions[s], packet_id: *id, stream_type: 1, timestamp: unix_now(), client_session_id: Some(csid), padding: 0, addr: refimpl::Addr::V4(T_IP, T_PORT), payload: payload.clone() };
+            let wire = if refimpl::ss2022::is_aes(&cipher) {
+                let key = match user {
+                    Some(u) => c.user_keys[u].clone(),
+                    None => c.psk.clone(),
+                };
+                refimpl::ss2022::udp_packet_aes(&cipher, &[key], &body)
+            } else {
+                let mut n24 = [0u8; 24];
+                g.fill(&mut n24);
+                refimpl::ss2022::udp_packet_chacha(&cipher, &c.psk, &n24, &body)
+            };
+            let _ = usock.send_to(&wire, from).await;
+            let mut got = 0;
+            while let Ok(Ok((n, _))) = tokio::time::timeout(Duration::from_millis(50), app.recv_from(&mut buf)).await {
+                if buf[..n].ends_with(&payload) {
+                    got += 1;
+                }
+            }
+            let (max, seen) = &mut model[s];
+            let accept = *id < u64::MAX && (*id > *max || (*max - *id <= 8128 && !seen.contains(id)));
+            if accept {
+                seen.insert(*id);
+                *max = (*max).max(*id);
+            }
+            compared += 1;
+            if (got > 0) != accept || got > 1 {
+                let what = if got > 0 { "delivered-but-must-be-refused" } else { "refused-but-must-be-delivered" };
+                notes.push((what.to_owned(), format!("step {k} of {}: server session {} packet id {id} - the application received it {got} time(s), the rule says {} (highest id accepted so far in that session: {}, other session's: {})", steps.len(), s, if accept { "accept" } else { "refuse" }, model[s].0, model[1 - s].0)));
+                break;
+            }
+        }
+        (None, notes, compared)
+    });
+    let (startup, notes, compared) = out.result.clone();
+    let mut v = Vec::new();
+    if let Some(e) = startup {
+        v.push(Violation::new("C11", format!("C11/client-window-startup/{cell}"), e));
+    }
+    for (oracle, detail) in &notes {
+        v.push(Violation::new("C11", format!("C11/client-window/{oracle}/{cell}"), detail.clone()));
+    }
+    for p in &out.panics {
+        v.push(Violation::new("C11", format!("C11/panic/{cell}/client-window/{}", p.frame), format!("panic in node {}: {} at {}", p.node, p.message, p.location)));
+    }
+    let mut probes = BTreeMap::new();
+    probes.insert("client_window_ids_compared".to_owned(), compared);
+    probes.insert("client_window_runs".to_owned(), 1);
+    Outcome {
+        violations: v,
+        ev_hash: out.world.ev_hash,
+        ev_count: out.world.ev_count,
+        poll_hash: out.poll_hash,
+        polls: out.polls,
+        sim_ns: out.sim_ns,
+        stats: crate::report::world_stats(&out.world),
+        nontrivial: compared > 0,
+        case_hash: out.poll_hash ^ plan.seed.wrapping_mul(0x9E3779B97F4A7C15),
+        probes,
+        panics: out.panics,
+        extra_evaluations: compared,
+        extra_cases: (0..compared).map(|i| plan.seed.wrapping_mul(1_000_231).wrapping_add(i)).collect(),
+    }
+}
